@@ -48,6 +48,27 @@ FINISH = dict(
          "sections compared with the model as multisets. non-trivial = the tree has at least one include "
          "that names a file, or is a presence pattern / hazard case.",
 )
+FINISH["rule"] += (
+    " (4) further dimensions (counted as dim:*): references that ALMOST name an existing section (proper "
+    "prefix, one character more, upper case, trailing space, empty string, a name of another namespace) at "
+    "each of the six reference sites, in the catalogue (+ split twins, + the benign tree in which all those "
+    "names exist as sections of their own with distinct values) and in the random trees; duplicate ids whose "
+    "certificates differ in directory / file_name_format / endpoint / account / all four / live in two "
+    "included files; glob magic in a DIRECTORY component (sites/*/acmed.toml, sites/?/*.toml, s*/b/*.toml in "
+    "random trees, a once-tree, two global-split shapes: the later directory wins, not the later base name); "
+    "file names whose byte order differs from case-insensitive / numeric / dot-ignoring order (B+a, 10+9, "
+    ".h+a) under a glob and a literal include list in reverse alphabetical order (the catalogue's winner is "
+    "self-checked against the model); presence patterns with neighbours (a second certificate on the same "
+    "endpoint and one on a second endpoint, which set nothing or other values) and with the EMPTY string as "
+    "the more specific file_name_format / directory (judged through the getters only)."
+)
+FINISH["rule"] += (
+    " (5) more trees whose including file lives in a directory named like a pattern (conf[1], conf[!x], a*b, q?), "
+    "WITHOUT a sibling the name would match (the includes must still be found) and with one that holds "
+    "same-named decoy files; relative includes written literally, as a glob, with ./, nested one level down "
+    "(the nested file's directory has the metacharacters in its parent) and back up to main; the merged "
+    "[global] renew_delay is judged through the running daemon as well."
+)
 
 ROOT = "@ROOT@"
 DAY = 86400
@@ -363,16 +384,74 @@ def pattern_specs(ctx):
     return out
 
 
+def with_neighbours(rng, spec, e2_sets=False):
+    """The same pattern with a second certificate p2 on the same endpoint and a certificate p3 on a second
+    endpoint e2; p2 and p3 set nothing (e2 sets nothing, or other values): a value must not leak sideways."""
+    s = copy.deepcopy(spec)
+    cfg = s["files"]["main.toml"]
+    e2 = mk_endpoint("e2")
+    if e2_sets:
+        e2.update(renew_delay="123s", random_early_renew="321s", file_name_format="{{ name }}.e2.{{ file_type }}.{{ ext }}")
+    cfg["endpoint"].append(e2)
+    cfg["certificate"] += [mk_cert("p2", hooks=[]), mk_cert("p3", endpoint="e2", hooks=["h1"])]
+    rng.shuffle(cfg["endpoint"])
+    rng.shuffle(cfg["certificate"])
+    s["label"] += ":neighbours" + (":e2-sets" if e2_sets else "")
+    s["dim"] = "pattern:neighbours" + (":e2-sets" if e2_sets else "")
+    return s
+
+
+def pattern_more_specs(ctx):
+    """Presence patterns with neighbours; the empty string as the more specific value."""
+    rng = ctx.rng
+    out = []
+    for s in SETTINGS:
+        for n in range(8):
+            c, e, g = (n >> 2) & 1, (n >> 1) & 1, n & 1
+            if s == "directory" and e:
+                continue
+            base = pattern_spec(rng, {s: (c, e, g)}, label="pattern:%s:c%de%dg%d" % (s, c, e, g))
+            out.append(with_neighbours(rng, base))
+            out.append(with_neighbours(rng, base, e2_sets=True))
+    for a in range(8):
+        bits = {s: ((a >> 2) & 1, (a >> 1) & 1 if s != "directory" else 0, a & 1) for s in SETTINGS}
+        out.append(with_neighbours(rng, pattern_spec(rng, bits, label="product:all-%d" % a), e2_sets=bool(a & 1)))
+    # "" is a value that is GIVEN: it wins over the less specific levels (and over the built-in default)
+    for s in ("file_name_format", "directory"):
+        for level, pats in (("certificate", [(1, 0, 0), (1, 0, 1), (1, 1, 0), (1, 1, 1)]),
+                            ("endpoint", [(0, 1, 0), (0, 1, 1)]), ("global", [(0, 0, 1)])):
+            for c, e, g in pats:
+                if s == "directory" and (e or level == "endpoint"):
+                    continue
+                spec = pattern_spec(rng, {s: (c, e, g)}, label="pattern:%s:c%de%dg%d:empty-at-%s" % (s, c, e, g, level))
+                cfg = spec["files"]["main.toml"]
+                if level == "certificate":
+                    cfg["certificate"][0][s] = ""
+                elif level == "endpoint":
+                    cfg["endpoint"][0][s] = ""
+                else:
+                    cfg["global"]["certificates_directory" if s == "directory" else s] = ""
+                # start-up may refuse an empty template or directory for reasons that are not C14's: getters only
+                spec.update(cnf_only=True, dim="pattern:empty-%s-at-%s" % (s, level))
+                out.append(spec)
+                twin = with_neighbours(rng, spec, e2_sets=rng.random() < 0.5)
+                twin["dim"] = spec["dim"] + ":neighbours"
+                out.append(twin)
+    return out
+
+
 # ----------------------------------------------------------------------------------------------
 # (2a) the [global] table split over files, for every option
 
 def split_family(rng):
     out = []
     shapes = ["main+inc", "main+two", "inc-only", "chain+sibling", "no-main-table", "twice", "empty-table-later"]
+    shapes += ["glob-dirs", "glob-dirs-files", "order:case", "order:numeric", "order:dot", "literal-reverse"]
     for o in GLOBAL_OPTS:
         for shape in shapes:
             v = Values(rng)
             used = []
+            winner = None
 
             def val():
                 while True:
@@ -419,8 +498,41 @@ def split_family(rng):
                 main["include"] = ["inc/a.toml", "inc/b.toml"]
                 files["inc/a.toml"] = {"global": {o: val()}}
                 files["inc/b.toml"] = {"global": {}}
+            elif shape == "glob-dirs":
+                # magic in a DIRECTORY component: the file of the later directory is read later
+                main["global"][o] = val()
+                main["include"] = ["sites/*/g.toml"]
+                files["sites/a/g.toml"] = {"global": {o: val()}}
+                files["sites/b/g.toml"] = {"global": {o: val()}}
+                winner = "sites/b/g.toml"
+            elif shape == "glob-dirs-files":
+                # ... whatever the base names are: a/z.toml is read before b/g.toml
+                main["global"][o] = val()
+                main["include"] = [rng.choice(["sites/*/*.toml", "s*/?/*.toml", "sites/[ab]/?.toml", "./sites/*/[gz].toml"])]
+                files["sites/a/g.toml"] = {"global": {o: val()}}
+                files["sites/a/z.toml"] = {"global": {o: val()}}
+                files["sites/b/g.toml"] = {"global": {o: val()}}
+                winner = "sites/b/g.toml"
+            elif shape.startswith("order:"):
+                # glob results come in byte order of the names: not case-insensitive, not numeric, the dot counts
+                first, last = {"order:case": ("B.toml", "a.toml"), "order:numeric": ("10.toml", "9.toml"),
+                               "order:dot": (".h.toml", "a.toml")}[shape]
+                main["global"][o] = val()
+                main["include"] = ["inc/*.toml"]
+                files["inc/" + last] = {"global": {o: val()}}
+                files["inc/" + first] = {"global": {o: val()}, "hook": [mk_hook("h_first", "first")]}
+                winner = "inc/" + last
+            elif shape == "literal-reverse":
+                # a literal list is followed in the order written, not sorted
+                main["global"][o] = val()
+                main["include"] = ["inc/b.toml", "inc/a.toml"]
+                files["inc/a.toml"] = {"global": {o: val()}}
+                files["inc/b.toml"] = {"global": {o: val()}}
+                winner = "inc/a.toml"
             out.append({"label": "global-split:%s:%s" % (o, shape), "kind": "global-split", "files": files,
                         "plain": "plain_ecdsa-p256", "option": o})
+            if winner:
+                out[-1].update(winner=winner, dim="split-shape:" + shape)
     return out
 
 
@@ -478,6 +590,14 @@ def once_family():
     out.append(tree("main-by-symlink", ["a.toml", "main.toml", "start.toml"], symlinks={"start.toml": "main.toml"}))
     out[-1]["main"] = "start.toml"
     out.append(tree("main-in-subdir", ["../a.toml", "../etc/../a.toml"], main_rel="etc/main.toml", inc_includes=["etc/main.toml"]))
+    # a glob THROUGH a directory (magic in a non-final component) + a literal of one of the files it names
+    sites = {"sites/a/acmed.toml": {"hook": [mk_hook("hsa", "sa")]}, "sites/b/extra.toml": {"hook": [mk_hook("hsb", "sb")]}}
+    out.append(tree("glob-through-directory+literal", ["sites/*/acmed.toml", "sites/b/acmed.toml"],
+                    inc_rel="sites/b/acmed.toml", extra_files=sites))
+    out.append(tree("literal+globs-through-directories", ["sites/b/acmed.toml", "sites/?/*.toml", "s*/b/*.toml", "./sites/[!a]/*.toml"],
+                    inc_rel="sites/b/acmed.toml", extra_files=sites, inc_includes=["../*/extra.toml", "../../*.toml"]))
+    for t in out[-2:]:
+        t["dim"] = "once:" + t["label"][5:]
     return out
 
 
@@ -649,6 +769,81 @@ def hazard_specs():
         c["include"] = ["inc/more.toml", "inc/../inc/more.toml", "inc/*.toml"]
     add("file-included-three-times-is-not-a-duplicate", "started", twice_not_dup, split=False)
 
+    # references that ALMOST name an existing section, or name a section of another namespace
+    def near(n):
+        return [("prefix", n[:-1]), ("one-more", n + "x"), ("upper", n.upper()), ("trailing-space", n + " "),
+                ("empty", "")]
+    sites = [
+        ("certificate.endpoint", "e1", ["h1", "a1", "rl1"], lambda c, v: c["certificate"][1].__setitem__("endpoint", v)),
+        ("certificate.account", "a1", ["e1", "h1"], lambda c, v: c["certificate"][0].__setitem__("account", v)),
+        ("certificate.hooks", "h1", ["a1", "rl1", "e1"], lambda c, v: c["certificate"][1]["hooks"].append(v)),
+        ("account.hooks", "h1", ["a1", "rl1"], lambda c, v: c["account"][0]["hooks"].insert(0, v)),
+        ("group.hooks", "h2", ["a1", "e1"], lambda c, v: c["group"][0]["hooks"].append(v)),
+        ("endpoint.rate_limits", "rl1", ["h1", "e1"], lambda c, v: c["endpoint"][0]["rate_limits"].append(v)),
+    ]
+    for site, n, cross, setter in sites:
+        variants = near(n) + [("namespace-of-" + o, o) for o in cross]
+        if site.endswith(".hooks"):
+            variants += [("group-" + k, v) for k, v in near("g1") if v]
+        for kind, v in variants:
+            def edit(c, x, setter=setter, v=v, dim="near-miss:%s:%s" % (site, kind)):
+                setter(c, v)
+                return {"dim": dim}
+            add("near-miss:%s:%s" % (site, kind), "rejected", edit)
+
+    def near_all_exist(c, x):
+        # the benign twin: every such name IS a section of its own, with values of its own
+        c["endpoint"][0]["renew_delay"] = "10d"
+        c["endpoint"] += [mk_endpoint("E1", renew_delay="11d", rate_limits=["RL1", "rl"]), mk_endpoint("e1x", renew_delay="12d"),
+                          mk_endpoint("e1 ", renew_delay="13d", rate_limits=["rl1 "]), mk_endpoint("e", renew_delay="14d")]
+        c["rate-limit"] += [{"name": "RL1", "number": 8, "period": "2m"}, {"name": "rl", "number": 9, "period": "3m"},
+                            {"name": "rl1 ", "number": 10, "period": "4m"}]
+        c["hook"] += [mk_hook("H1", "upper"), mk_hook("h1x", "one-more"), mk_hook("h1 ", "space"), mk_hook("h", "prefix"),
+                      mk_hook("a1", "named-like-an-account"), mk_hook("G1", "named-like-a-group-in-upper-case")]
+        c["group"] += [{"name": "g", "hooks": ["h", "H1"]}, {"name": "g1x", "hooks": ["h1x", "g"]}]
+        c["account"] += [mk_account("A1", hooks=["H1", "g"]), mk_account("a1x", hooks=["h1 "]), mk_account("a", hooks=["G1"])]
+        c["certificate"] += [mk_cert("n1", endpoint="E1", account="A1", hooks=["H1", "h1 ", "G1"]),
+                             mk_cert("n2", endpoint="e1x", account="a1x", hooks=["h1x", "h", "a1", "g1x"]),
+                             mk_cert("n3", endpoint="e1 ", account="a", hooks=["g", "g1"]),
+                             mk_cert("n4", endpoint="e", hooks=["h1"])]
+        return {"dim": "near-miss:all-names-exist"}
+    add("near-miss:all-names-exist", "started", near_all_exist)
+
+    # duplicate ids whose certificates differ in more than the identifier
+    def dup_differs(what):
+        def f(c, x):
+            c["endpoint"].append(mk_endpoint("e2"))
+            c["account"].append(mk_account("a2"))
+            kw = {}
+            if what in ("directory", "all-four"):
+                kw["directory"] = ROOT + "/crt/elsewhere"
+            if what in ("file_name_format", "all-four"):
+                kw["file_name_format"] = "{{ name }}.other.{{ file_type }}.{{ ext }}"
+            if what in ("endpoint", "all-four"):
+                kw["endpoint"] = "e2"
+            if what in ("account", "all-four"):
+                kw["account"] = "a2"
+            dup = mk_cert("c1", hooks=["h1"], ident="other.example.org", **kw)
+            if what == "two-included-files":
+                x["inc/one.toml"] = {"certificate": [mk_cert("d1", hooks=["h1"])]}
+                x["inc/two.toml"] = {"certificate": [mk_cert("d1", hooks=[], ident="d1b.example.org", endpoint="e2", account="a2",
+                                                              directory=ROOT + "/crt/elsewhere",
+                                                              file_name_format="{{ name }}.other.{{ file_type }}.{{ ext }}")]}
+                c["include"] = ["inc/one.toml", "inc/two.toml"]
+            else:
+                c["certificate"].insert(0 if what == "directory" else len(c["certificate"]), dup)
+            return {"dim": "dup-differs:" + what}
+        return f
+    for what in ("directory", "file_name_format", "endpoint", "account", "all-four", "two-included-files"):
+        add("duplicate-id-differs-in-" + what, "rejected", dup_differs(what))
+
+    def same_directory_not_dup(c, x):
+        # benign twin: equal directory, format, endpoint and account do not make two names one id
+        for crt in c["certificate"]:
+            crt.update(directory=ROOT + "/crt/shared", file_name_format="{{ name }}.same.{{ file_type }}.{{ ext }}")
+        return {"dim": "dup-differs:benign-same-directory-and-format"}
+    add("distinct-ids-same-directory-and-format", "started", same_directory_not_dup)
+
     # includes that cannot be read
     def dangling(c, x):
         c["include"] = ["gone.toml"]
@@ -731,6 +926,39 @@ def metadir_specs(specs):
     return out
 
 
+def metachar_family():
+    """The including file lives in a directory whose NAME contains glob metacharacters.  "Included files
+    given by relative paths" are relative to that directory: its name is taken literally, whatever characters
+    it is made of; a sibling directory that the name would match AS A PATTERN (the decoy) is not read."""
+    out = []
+    dirs = [("conf[1]", None), ("conf[1]", "conf1"), ("conf[!x]", None), ("conf[!x]", "confy"), ("a*b", "aXb"),
+            ("q?", "qZ"), ("plain", "plainer")]
+    spellings = [("literal", ["inc/a.toml"], None), ("glob", ["inc/*.toml"], None), ("dot-glob", ["./inc/?.toml"], None),
+                 ("nested", ["inc/a.toml"], ["b.toml"]), ("nested-glob", ["inc/a.toml"], ["[b].toml", "../main.toml"])]
+    for d, decoy in dirs:
+        for how, includes, inner in spellings:
+            main = {"global": dict(base_global(), renew_delay="8d"), "include": includes, "endpoint": [mk_endpoint("e1")],
+                    "hook": [mk_hook("h1", "m")], "account": [mk_account("a1")],
+                    "certificate": [mk_cert("first", hooks=["h1"])]}
+            a = {"global": {"renew_delay": "9d"}, "endpoint": [mk_endpoint("e2")], "hook": [mk_hook("h2", "a")],
+                 "account": [mk_account("a2")], "certificate": [mk_cert("second", endpoint="e2", account="a2", hooks=["h2"])]}
+            if inner:
+                a["include"] = inner
+            files = {d + "/main.toml": main, d + "/inc/a.toml": a, d + "/inc/b.toml": {"hook": [mk_hook("hb", "b")]}}
+            if decoy:
+                files[decoy + "/main.toml"] = {"hook": [mk_hook("decoy_main", "decoy")]}
+                files[decoy + "/inc/a.toml"] = {"global": {"renew_delay": "77d"}, "hook": [mk_hook("decoy_a", "decoy")],
+                                                "certificate": [mk_cert("decoy", hooks=[])]}
+                files[decoy + "/inc/b.toml"] = {"hook": [mk_hook("decoy_b", "decoy")]}
+            out.append({"label": "metachar:%s%s:%s" % (d, "+sibling-" + decoy if decoy else "", how), "kind": "metachar",
+                        "files": files, "main": d + "/main.toml", "expect": "started", "plain": "first_ecdsa-p256",
+                        "option": "renew_delay",
+                        "hint": "the including file lives in the directory named %r: a place, not a pattern -- relative "
+                                "includes are to be looked up in exactly that directory" % d,
+                        "dim": "metachar-directory:%s:%s" % ("plain" if d == "plain" else "magic" + ("+sibling" if decoy else ""), how)})
+    return out
+
+
 def dupname_specs():
     """Two sections of the same name in different files (the property does not say which one counts:
     informational, never an alarm)."""
@@ -755,6 +983,7 @@ def dupname_specs():
 LAYOUT = ["a.toml", "b.toml", "c.toml", "inc/10_x.toml", "inc/20_y.toml", "inc/30_z.toml",
           "conf.d/01_a.toml", "conf.d/02_b.toml", "conf.d/zz.toml", "conf.d/03_c.conf",
           "sub/deep/d.toml", "sub/e.toml"]
+LAYOUT += ["sites/a/acmed.toml", "sites/b/acmed.toml", "sites/b/extra.toml"]   # reached through magic in a directory component
 
 
 def spell(rng, src_rel, dst_rel, symlinks, dirs):
@@ -787,6 +1016,9 @@ def spell(rng, src_rel, dst_rel, symlinks, dirs):
         return os.path.relpath("inc", sdir or ".") + "/" + rng.choice(["*.toml", "?0_*.toml", "*_[xy].toml"])
     if ddir == "":
         return (os.path.relpath(".", sdir) + "/" if sdir else "") + rng.choice(["*.toml", "[ab].toml", "?.toml"])
+    if ddir.startswith("sites/"):
+        return (os.path.relpath(".", sdir) + "/" if sdir else "") + rng.choice(
+            ["sites/*/" + dname, "sites/?/*.toml", "s*/" + ddir[6:] + "/*.toml", "sites/[!z]/" + dname[:-6] + "?.toml"])
     return os.path.relpath(ddir, sdir or ".") + "/*.toml"
 
 
@@ -884,20 +1116,35 @@ def random_tree(rng, idx, scratch):
     if rng.random() < 0.4:
         hazard = rng.choice(["unknown-endpoint", "unknown-account", "unknown-hook", "unknown-member", "unknown-rl",
                              "dup-cert", "group-cycle", "orphan-section", "dangling-include", "bad-toml-include"])
+        def miss(existing, other):
+            """A name that does not resolve: "nope", something close to an existing name, or a name that
+            exists in another namespace only."""
+            n = rng.choice(existing) if existing else "x1"
+            kind, name = rng.choice([("nope", "nope"), ("prefix", n[:-1]), ("one-more", n + "x"), ("upper", n.upper()),
+                                     ("trailing-space", n + " "), ("empty", ""), ("other-namespace", rng.choice(other))])
+            spec["dim"] = "random-near-miss:%s:%s" % (hazard, kind)
+            return name
+        en, an = [e["name"] for e in eps], [a["name"] for a in accounts]
         if hazard == "unknown-endpoint":
-            rng.choice(certs)["endpoint"] = "nope"
+            rng.choice(certs)["endpoint"] = miss(en, an + names)
         elif hazard == "unknown-account":
-            rng.choice(certs)["account"] = "nope"
+            rng.choice(certs)["account"] = miss(an, en + names)
         elif hazard == "unknown-hook":
-            rng.choice(certs + accounts).setdefault("hooks", []).append("nope")
+            rng.choice(certs + accounts).setdefault("hooks", []).append(miss(names, en + an))
         elif hazard == "unknown-member" and groups:
-            rng.choice(groups)["hooks"].append("nope")
+            rng.choice(groups)["hooks"].append(miss(names, en + an))
         elif hazard == "unknown-rl":
-            rng.choice(eps).setdefault("rate_limits", []).append("nope")
+            rng.choice(eps).setdefault("rate_limits", []).append(miss([r_["name"] for r_ in rls], en + names))
         elif hazard == "dup-cert":
             c = copy.deepcopy(rng.choice(certs))
             c["renew_delay"] = v.delay()
-            certs.append(c)
+            # the twin may differ in everything that is not part of the id
+            differs = [k for k in ("directory", "file_name_format", "endpoint", "account") if rng.random() < 0.5]
+            for k in differs:
+                c[k] = {"directory": v.directory, "file_name_format": v.fmt, "endpoint": lambda: rng.choice(en),
+                        "account": lambda: rng.choice(an)}[k]()
+            spec["dim"] = "random-dup-differs:" + ("+".join(differs) or "renew_delay-only")
+            certs.insert(rng.randrange(len(certs) + 1), c)
         elif hazard == "group-cycle" and groups:
             g = rng.choice(groups)
             g["hooks"].append(rng.choice([x["name"] for x in groups if x["name"] >= g["name"]]))
@@ -1062,6 +1309,7 @@ def check_specs(ctx, specs, scratch, tag=""):
             dirs = [a["cnf"]["account_dir"]] + [c["directory"] for c in a["cnf"]["certificates"]]
             ok = all(d.startswith(root + "/") for d in dirs)
         elig.append(ok)
+    elig = [ok and not s.get("cnf_only") for ok, s in zip(elig, specs)]
     startup = par_probe([{"op": "config_load", "path": mp, "dump": True}
                          for (_, mp, _), ok in zip(real, elig) if ok])
     it = iter(startup)
@@ -1136,10 +1384,19 @@ def check_specs(ctx, specs, scratch, tag=""):
             r = dict(rep)
             if extra:
                 r["judge"] = extra
-            ctx.violation("%s: %s" % (label, desc), r)
+            ctx.violation("%s: %s%s" % (label, desc, " -- " + s["hint"] if s.get("hint") else ""), r)
         # generator self-check: the catalogue says what the property demands of this case
         if "expect" in s and (mclass == "started") != (s["expect"] == "started"):
             ctx.broke("catalogue", "%s: the catalogue expects %s, the model says %s" % (label, s["expect"], mclass), rep)
+        if s.get("dim"):
+            ctx.count(tag + "dim:" + s["dim"])
+        if s.get("winner") and s.get("option") not in ("env", "renew_delay", "random_early_renew"):
+            # the catalogue names the file whose value must win: the model, fed with this harness's include
+            # resolution, has to agree (a wrong order in glob_walk would otherwise go unnoticed on both sides)
+            want = norm_global({s["option"]: s["files"][s["winner"]]["global"][s["option"]]})[s["option"]].replace(ROOT, root)
+            if (m.get("global") or {}).get(s["option"]) != want:
+                ctx.broke("catalogue", "%s: the catalogue expects the value of %s (%s) to win, the model says %s" % (
+                    label, s["winner"], want, (m.get("global") or {}).get(s["option"])), rep)
         # ---- (a)
         if crashed(a):
             viol("loading the tree crashed: %s" % (str(a)[:200]))
@@ -1296,6 +1553,8 @@ def run(ctx):
         fams = [("patterns", pattern_specs(ctx)), ("global-split", split_family(ctx.rng)),
                 ("once", once_family()), ("hazards", hazard_specs()), ("dupname", dupname_specs()),
                 ("corpus", [c for c in vlib.corpus("C14") if "files" in c])]
+        fams.insert(1, ("patterns-more", pattern_more_specs(ctx)))
+        fams.insert(4, ("metachar", metachar_family()))
         for name, specs in fams:
             if specs:
                 check_specs(ctx, specs, os.path.join(scratch, name))
@@ -1308,6 +1567,8 @@ def run(ctx):
             specs = [random_tree(ctx.rng, done + i, scratch) for i in range(k)]
             for s in specs:
                 ctx.count("random:hazard:" + str(s.get("hazard")))
+                if any(has_magic(os.path.dirname(p)) for f in s["files"].values() for p in f.get("include", [])):
+                    ctx.count("dim:random:magic-in-a-directory-component")
             check_specs(ctx, specs, os.path.join(scratch, "random"))
             if done == 0:
                 sample_of(ctx, specs, scratch)
